@@ -35,6 +35,22 @@ for line in p.stdout.splitlines():
         failed.add(name)
         passed.discard(name)
 missing = sorted(stable - passed)
+# timing-based tests flake on a loaded machine: re-run the stable tests that did not pass, alone
+if missing and len(missing) <= 12 and "--no-retry" not in sys.argv:
+    ids = []
+    for m in missing:
+        mod, name = m.split("::", 1)
+        ids.append(mod.replace(".", "/") + ".py::" + name)
+    r2 = subprocess.run(["/venv/bin/python", "-m", "pytest", "-q", "-p", "no:cacheprovider", "--timeout=900", "--no-cov", "-rf", "-p", "no:randomly"] + ids, cwd=repo, env=env, stdout=subprocess.PIPE, stderr=subprocess.STDOUT, text=True)
+    still = set()
+    for line in r2.stdout.splitlines():
+        mm = re.match(r"FAILED (\S+?)::(\S+)", line)
+        if mm:
+            still.add(mm.group(1).replace("/", ".").removesuffix(".py") + "::" + mm.group(2))
+    if r2.returncode == 0:
+        still = set()
+    print(f"re-ran {len(ids)} non-passing stable tests alone: {len(still)} still failing")
+    missing = sorted(still) if (r2.returncode == 0 or still) else missing
 print("\n".join(tail))
 print(f"stable_pass={len(stable)} passed_now={len(passed)} failed_now={len(failed)} stable_not_passing={len(missing)}")
 for m in missing[:40]:
